@@ -84,7 +84,8 @@ class C17(Property):
         for _ in range(n):
             k = rng.random()
             if k < 0.3:
-                ps = arc_points(rng)
+                kk = rng.random()
+                ps = g.flat_arc_pts(rng) if kk < 0.15 else g.longway_arc_pts(rng) if kk < 0.3 else arc_points(rng)
                 pts = [(ps[0][0], ps[0][1], "P"), (ps[1][0], ps[1][1], None), (ps[2][0], ps[2][1], None)]
                 tag = "arc"
             elif k < 0.55:
